@@ -1305,6 +1305,12 @@ def _leading_walrus(e: ast.expr) -> ast.NamedExpr | None:
         return _leading_walrus(e.operand)
     if isinstance(e, ast.BoolOp):
         return _leading_walrus(e.values[0])
+    if isinstance(e, ast.Call) and e.args and not any(isinstance(a, ast.Starred) for a in e.args[:1]) and is_pure_expr(e.func):
+        # `D.get(t := E)`: the callee expression is a plain read, the first argument is what is evaluated next
+        w = _leading_walrus(e.args[0])
+        if w is not None and any(isinstance(x, ast.Name) and x.id == w.target.id for x in ast.walk(e.func)):
+            w = None
+        return w
     return None
 
 
